@@ -93,6 +93,10 @@ class SymSeq:
             op = _dis.opname[fr.f_code.co_code[fr.f_lasti]]
         except Exception:  # noqa: BLE001
             op = "?"
+        if fr.f_code.co_flags & 0x20:  # CO_GENERATOR
+            # the `for` statement sits in a generator function: its iterations are interleaved with the consumer's
+            # loop body, which is where the state lives - a loop cut describes a loop with its body in one frame
+            raise Unsupported("symbolic sequence %s is iterated inside a generator function (%s)" % (self.name, fr.f_code.co_name))
         if op != "GET_ITER":
             # consumed by something other than a `for` statement of the code (itertools.product, zip, sorted,
             # a C-level consumer ...): a loop cut describes one pass of a for-loop body, nothing else
